@@ -77,7 +77,7 @@ def parseMode : String → Option PMode
   | "losenew" => some .loseNew
   | _ => none
 
-def recvStep (st : RecvState) (ts : List String) : RecvState × List String :=
+def recvStepCore (st : RecvState) (ts : List String) : RecvState × List String :=
   let s := st.sys
   match ts with
   | "case" :: _ =>
@@ -126,5 +126,18 @@ def recvStep (st : RecvState) (ts : List String) : RecvState × List String :=
     ({ st with sys := s' }, out1 ++ delta w s'.σ.w)
   | [] => (st, [])
   | _ => (st, ["bad-op"])
+
+/-- Adds the operation markers (`@<op> <kind>`) that precede each operation's observations. -/
+def recvStep (st : RecvState) (ts : List String) : RecvState × List String :=
+  match ts with
+  | "case" :: _ => recvStepCore st ts |> fun (st', out) =>
+      -- the implicit drop at the end of the previous case is marked `@end`
+      (st', (if st.active then ["@end"] else []) ++ out)
+  | ["__end__"] => recvStepCore st ts |> fun (st', out) => (st', (if st.active then ["@end"] else []) ++ out)
+  | [] => (st, [])
+  | a :: rest =>
+    let marker := ("@" ++ a ++ " " ++ (rest.head?.getD "")).trimAscii.toString
+    let (st', out) := recvStepCore st ts
+    (st', marker :: out)
 
 end Driver
